@@ -27,7 +27,7 @@ from vsim.valgen import corrupt, ValGen, Unsupported
 CODECS = ['ber', 'der', 'per', 'uper', 'oer', 'jer', 'xer', 'gser']
 OP_BUDGET = 1500000
 AMPLIFY_ROUNDS = 60
-threading.stack_size(64 * 1024 * 1024)
+threading.stack_size(16 * 1024 * 1024)
 
 
 def is_recursion(outcome):
@@ -185,6 +185,177 @@ class C18(Engine):
         return {'spec': spec, 'codec': codec, 'numeric_enums': numeric_enums,
                 'ops': ops, 'threads': n_threads, 'schedule': schedule,
                 'inject': inject, 'seed': run_seed}
+
+    # -- exhaustive single-pre-emption sweeps -----------------------------------
+
+    def plan(self, tier, seed, runs):
+        items = Engine.plan(self, tier, seed, runs)
+        sweeps = 24 if tier == 'quick' else max(200, runs // 20)
+
+        for index in range(sweeps):
+            items.append({'kind': 'preempt',
+                          'seed': mix(seed, 'C18-preempt', index)})
+
+        return items
+
+    def run_item(self, item):
+        if item['kind'] == 'preempt':
+            return self.run_preempt(item)
+
+        return self.execute(self.gen_case(item['seed']))
+
+    def run_preempt(self, item):
+        """Two threads, one operation each on the same (hot) type; EVERY
+        schedule with a single pre-emption is executed: thread A runs k
+        ticks, thread B runs to its end, A finishes - for every k, and with
+        the roles swapped."""
+
+        result = Result()
+        base = self.gen_case(item['seed'])
+        codec = base['codec']
+        by_type = {}
+
+        for op in base['ops']:
+            by_type.setdefault(op['type'], []).append(op)
+
+        pairs = [ops for ops in by_type.values() if len(ops) >= 2]
+
+        if not pairs:
+            return result
+
+        chosen = max(pairs, key=len)
+        rng = random.Random(mix(item['seed'], 'pair'))
+        first, second = rng.sample(chosen, 2)
+        ops = [dict(first, thread=0), dict(second, thread=1)]
+        text = specgen.render(base['spec'])
+        shared = world.compile_text(text, codec, base['numeric_enums'])
+        oracle = world.compile_text(text, codec, base['numeric_enums'])
+
+        if shared[0] != 'ok' or oracle[0] != 'ok':
+            result.stats['rejected-program'] += 1
+
+            return result
+
+        shared, oracle = shared[1], oracle[1]
+        pristine = graph.fingerprint(oracle)[0]
+        datas = []
+        expected = []
+        alone_ticks = []
+
+        for op in ops:
+            data = None
+
+            if op['kind'] == 'decode':
+                if op['fault']['kind'] == 'raw':
+                    data = bytes.fromhex(op['fault']['data'])
+                else:
+                    value = deser(op['value'])
+                    outcome, ticks = steps.call(
+                        lambda: oracle.encode(op['type'], value), OP_BUDGET)
+
+                    if outcome[0] != 'ok':
+                        return result
+
+                    data = wire.mutate(outcome[1], op['fault'], b'')
+
+            datas.append(data)
+            fn, _ = self.make_call(oracle, op, data)
+            outcome, ticks = steps.call(fn, OP_BUDGET)
+            result.ticks += ticks
+
+            if outcome[0] == 'hang' or is_recursion(outcome):
+                return result
+
+            expected.append(outcome)
+            alone_ticks.append(ticks)
+
+        if graph.fingerprint(oracle)[0] != pristine:
+            result.stats['probe-reference-graph-changed'] += 1
+
+        forever = 1 << 40
+        limit = 4 * sum(alone_ticks) + 100000
+        result.stats['preempt-sweeps'] += 1
+        team = sched.Team(2)
+        count = 0
+
+        for leader in (0, 1):
+            follower = 1 - leader
+
+            for k in range(1, alone_ticks[leader] + 1):
+                runs = [[leader, k], [follower, forever], [leader, forever]]
+                scheduler = sched.Scheduler(2, {'kind': 'explicit',
+                                                'runs': runs}, limit)
+                outcomes = {}
+
+                def body(tid):
+                    fn, _ = self.make_call(shared, ops[tid], datas[tid])
+
+                    try:
+                        outcomes[tid] = ['ok', fn()]
+                    except steps.StepBudgetExceeded as e:
+                        outcomes[tid] = ['hang', steps.raise_site(e)]
+                        scheduler.clock.limit = scheduler.clock.ticks + limit
+                    except RecursionError:
+                        outcomes[tid] = ['err', 'builtins.RecursionError',
+                                         '', None]
+                    except Exception as e:
+                        outcomes[tid] = steps.exc_outcome(e)
+
+                scheduler.run(body, team=team)
+                count += 1
+                result.ticks += scheduler.clock.ticks
+                result.evaluations += 2
+                result.stats['preempt-schedules'] += 1
+                result.stats['context-switches'] += scheduler.switches
+
+                for tid in (0, 1):
+                    if is_recursion(outcomes[tid]):
+                        continue
+
+                    if canon_outcome(outcomes[tid]) != canon_outcome(
+                            expected[tid]):
+                        case = dict(base, ops=copy.deepcopy(ops), threads=2,
+                                    schedule={'kind': 'explicit',
+                                              'runs': runs}, inject=None)
+                        result.violation(
+                            'result-diff', {'codec': codec},
+                            {'op': tid, 'kind': ops[tid]['kind'],
+                             'type': ops[tid]['type'],
+                             'single_preemption_after_ticks': k,
+                             'got': canon_outcome(outcomes[tid])[:400],
+                             'expected': canon_outcome(expected[tid])[:400]},
+                            case)
+
+                if count % 8 == 0 and \
+                        graph.fingerprint(shared)[0] != pristine:
+                    result.stats['probe-graph-state-changed'] += 1
+                    fresh = world.compile_text(text, codec,
+                                               base['numeric_enums'])
+
+                    if fresh[0] == 'ok':
+                        shared = fresh[1]
+
+                if result.violations:
+                    break
+
+            if result.violations:
+                break
+
+        team.close()
+        result.key('preempt', item['seed'],
+                   weight=sum(alone_ticks))
+        result.log.append(['preempt', codec, [o['kind'] for o in ops],
+                           alone_ticks, len(result.violations)])
+
+        if len(result.samples) < 1:
+            result.samples.append({
+                'kind': 'exhaustive single-pre-emption sweep',
+                'codec': codec, 'type': ops[0]['type'],
+                'ops': [o['kind'] for o in ops],
+                'ticks_alone': alone_ticks,
+                'schedules_executed': sum(alone_ticks)})
+
+        return result
 
     # -- execution ------------------------------------------------------------
 
